@@ -162,7 +162,7 @@ def _countdown_form(f):
             continue
         T = tests[0].comparators[0].id if tests[0].left.id == D else tests[0].left.id
         # after `D = 0` the total is read only in the test and never written
-        later_T = [n for n in own_nodes(f.node) if isinstance(n, ast.Name) and n.id == T and getattr(n, "lineno", 0) > inits[0].lineno and not any(n is x for x in ast.walk(tests[0]))]
+        later_T = [n for n in own_nodes(f.node) if isinstance(n, ast.Name) and n.id == T and pos(f, n) > pos(f, inits[0]) and not any(n is x for x in ast.walk(tests[0]))]
         if later_T:
             continue
         node = norm.clone(f.node)
@@ -295,15 +295,16 @@ def check_plan(ctx):
     if okp:
         ap = apps[0]
         bl = enclosing_for(ap, f.node)
+        entry = norm.subst(ap.args[0], _loop_single_defs(bl)) if bl is not None else ap.args[0]
         okp = bl is not None and enclosing_for(bl, f.node) is ol and norm.is_name(bl.iter, segsv) and isinstance(bl.target, ast.Name) \
-            and isinstance(ap.args[0], ast.Tuple) and len(ap.args[0].elts) == 2
+            and isinstance(entry, ast.Tuple) and len(entry.elts) == 2
         if okp:
             hid = g.node_of(bl).id
             skip = g.path_avoiding(hid, {hid, g.exit.id}, {g.node_of(ap).id}, edge_ok=lambda a, b, lab, hid=hid: not (a == hid and lab == "done"))
             okp = skip is None and g.dominates(inits[0], bl) and g.dominates(bl, sl)
             benv = _loop_single_defs(bl)
-            A = norm.subst(ap.args[0].elts[0], benv)
-            B = norm.subst(ap.args[0].elts[1], benv)
+            A = norm.subst(entry.elts[0], benv)
+            B = norm.subst(entry.elts[1], benv)
             d += f"; one entry per segment, built before the segments run: {okp}"
     ctx.ob(6, "K6", "the tick plan has exactly one (io ticks, cpu ticks) entry per segment, in segment order", okp, f, apps[0] if apps else ol,
            construct="plan.append((io_ticks, cpu_ticks)) for every segment", detail=d)
@@ -358,6 +359,22 @@ def check_plan(ctx):
                 and len(ge.generators[0].target.elts) == 2 and all(isinstance(x, ast.Name) for x in ge.generators[0].target.elts):
             a_, b_ = (x.id for x in ge.generators[0].target.elts)
             oki = ratform.same(ge.elt, ratform.parse(f"{a_} + {b_}")) and g.dominates(bl, init[0]) and g.dominates(init[0], sl)
+    acc = None
+    if not oki and len(init) == 1 and isinstance(init[0].value, ast.Constant) and init[0].value.value == 0 and not isinstance(init[0].value.value, bool):
+        # the same sum accumulated while the plan is built:  v = 0 ; for s in segments: plan.append((A, B)) ; v += A + B
+        accs = [n for n in ws if isinstance(n, ast.AugAssign) and isinstance(n.op, ast.Add) and any(n is x for x in ast.walk(bl))]
+        if len(accs) == 1:
+            hidb = g.node_of(bl).id
+            every = g.path_avoiding(hidb, {hidb, g.exit.id}, {g.node_of(accs[0]).id}, edge_ok=lambda a, b, lab, hidb=hidb: not (a == hidb and lab == "done")) is None
+            val = norm.subst(accs[0].value, _loop_single_defs(bl))
+            try:
+                same = ratform.to_rat(val, None, consts).equals(ratform.to_rat(ast.BinOp(left=A, op=ast.Add(), right=B), None, consts))
+            except ratform.NotArithmetic:
+                same = norm.U(val) in (f"{norm.U(A)} + {norm.U(B)}", f"{norm.U(B)} + {norm.U(A)}")
+            oki = every and same and g.dominates(init[0], bl)
+            d += f"; accumulated in the plan loop: `{stmt_text(accs[0])}` on every iteration: {every}; equals the entry appended: {same}"
+            if oki:
+                acc = accs[0]
     ctx.ob(7, "K7", "the count-down of an operator starts at the sum of the io and cpu ticks of all its segments", oki, f, init[0] if init else ol,
            construct="op_ticks_left = sum(io + cpu for io, cpu in plan)", detail=d)
     # padding: after the initialisation and before the segment loop the count-down is >= 1, and the plan sums to it
@@ -381,7 +398,7 @@ def check_plan(ctx):
     ctx.ob(7, "K9", "an operator occupies at least one tick: when the segment loop starts the count-down is >= 1 on every path "
            "(a sum of non-negative counts that is not 0, or padded to 1)", ge1, f, sl, construct="count-down >= 1 before the first tick",
            detail=f"goal at the segment loop: {norm.show(goal)} with count-down >= 0; holds: {ge1}")
-    pads = [n for n in ws if n not in init and n is not cd]
+    pads = [n for n in ws if n not in init and n is not cd and n is not acc]
     okpad = True
     dpad = []
     for n in pads:
